@@ -25,6 +25,7 @@ RULE = (
     "(Bin num 1..60 x width {0.1,0.3,1/3,0.7,...} x offset {0,-0.3,1e6+0.1,1e15,...}; SparselyBin; CentrallyBin; IrregularlyBin) "
     "probed at every edge +-0..3 ulp, NaN, +-inf by fill and by fill.numpy. distinct = digest(spec, operation log) or "
     "digest(configuration); non-trivial = >=1 invariant evaluated on a state with positive entries"
+    ' Scalar fills in histories are re-typed value-preservingly 30% of the time; the accessor invariant (Branch.iN / h(key) / children vs values) is checked with every ghost check.'
 )
 ASSUMPTIONS = [
     "sum invariants compared with relative tolerance 1e-9 (the property says up to floating-point rounding); weights are dyadic so they are in fact exact",
